@@ -69,19 +69,12 @@ func (x *Exec) nilFuncCheck(st *State, f *FuncV, pos token.Pos) {
 
 func (x *Exec) callFunc(fr *Frame, st *State, fn *ssa.Function, args []Value, nbind int, pos token.Pos, k func(*State, Value)) {
 	key := funcKey(fn)
-	fr.callOrd[key]++
-	ord := fr.callOrd[key]
-	x.callAsserts(fr, st, key, fr.callOrd[key], fn, args[nbind:], pos)
+	ord := st.callCount(fr.id, key) + 1
+	x.callAsserts(fr, st, key, ord, fn, args[nbind:], pos)
 	k0 := k
 	k = func(st2 *State, res Value) {
-		// remember the result of the ord-th call (callres() in contract expressions)
-		rs := fr.callRes[key]
-		for len(rs) < ord {
-			rs = append(rs, nil)
-		}
-		rs[ord-1] = res
-		fr.callRes[key] = rs
-		fr.callOrd[key] = ord
+		// remember the result of this call (callres() in contract expressions)
+		st2.calls = &callEntry{frame: fr.id, key: key, res: res, parent: st2.calls}
 		k0(st2, res)
 	}
 	if sp := x.special(fr, st, fn, key, args, pos, k); sp {
@@ -132,8 +125,18 @@ func (x *Exec) callAsserts(fr *Frame, st *State, key string, ord int, fn *ssa.Fu
 		if cl.AtLine != "" && !strings.Contains(x.prog.sourceLine(pos), cl.AtLine) {
 			continue
 		}
+		for _, a := range args {
+			x.materialize(st, a)
+		}
 		ev := x.newEval(fr, st, nil)
 		// bind callee parameter names as $name
+		if fn == nil {
+			if ict := x.prog.cs.Funcs[key]; ict != nil && len(ict.Params) == len(args)+1 {
+				for i, a := range args {
+					ev.bind["ARG_"+ict.Params[i+1]] = a
+				}
+			}
+		}
 		if fn != nil {
 			ps := fn.Params
 			for i, p := range ps {
@@ -206,8 +209,15 @@ func (x *Exec) invoke(fr *Frame, st *State, c *ssa.CallCommon, recv Value, args 
 	if iv, ok := recv.(*IfaceV); ok {
 		x.safety(st, "nil", Not(Eq(iv.Tag, TZero)), pos)
 	}
-	fr.callOrd[key]++
-	x.callAsserts(fr, st, key, fr.callOrd[key], nil, args, pos)
+	{
+		ord := st.callCount(fr.id, key) + 1
+		x.callAsserts(fr, st, key, ord, nil, args, pos)
+		k0 := k
+		k = func(st2 *State, res Value) {
+			st2.calls = &callEntry{frame: fr.id, key: key, res: res, parent: st2.calls}
+			k0(st2, res)
+		}
+	}
 	ct := x.prog.cs.Funcs[key]
 	sig := c.Method.Type().(*types.Signature)
 	if key == "context.Context.Done" {
@@ -347,6 +357,20 @@ func (x *Exec) applyContract(fr *Frame, st *State, ct *Contract, key string, sig
 }
 
 func (x *Exec) pureResults(st *State, key string, sig *types.Signature, args []Value) []Value {
+	if ct := x.prog.cs.Funcs[key]; ct != nil && ct.Returns != nil && len(ct.Params) == len(args) {
+		ev := x.newEval(nil, st, nil)
+		ev.callee = true
+		for i, n := range ct.Params {
+			ev.bind[n] = args[i]
+		}
+		st.quiet++
+		v := ev.eval(ct.Returns)
+		st.quiet--
+		if p, ok := v.(*Prim); ok && p.Typ == nil && sig.Results().Len() == 1 {
+			p.Typ = sig.Results().At(0).Type()
+		}
+		return []Value{v}
+	}
 	// uninterpreted function of the argument leaves, one per result leaf
 	var argTerms []Term
 	var sorts []string
@@ -542,7 +566,7 @@ func (x *Exec) builtin(fr *Frame, st *State, b *ssa.Builtin, c *ssa.CallCommon, 
 			st.recovered = true
 			return st.panicVal
 		}
-		return &IfaceV{TZero, TZero}
+		return &IfaceV{Tag: TZero, Data: TZero}
 	case "print", "println":
 		return nil
 	case "min", "max":
